@@ -151,13 +151,17 @@ func (verifExactDM) UnmarshalFirst(data []byte, v interface{}) ([]byte, error) {
 		}
 		return data[n:], nil
 	case *cbor.RawMessage:
-		if ai >= 24 {
-			return nil, verifErrStub
-		}
-		l := 1
+		l := n
 		switch major {
-		case 0, 1, 7:
+		case 0, 1:
+		case 7:
+			if ai >= 24 {
+				return nil, verifErrStub
+			}
 		case 2, 3:
+			if ai >= 24 {
+				return nil, verifErrStub
+			}
 			l = 1 + int(ai)
 		default:
 			return nil, verifErrStub
